@@ -959,3 +959,7 @@ mod tests {
         assert_eq!(page[0], 0xCC);
     }
 }
+
+#[cfg(kani)]
+#[path = "/verif/kani/storage/wal.rs"]
+mod kani_harness;
